@@ -540,3 +540,44 @@ Proof.
   simpl in H. unfold ch_send in H. rewrite Hk', (a_cpl_open _ HA), Ecpl in H.
   destruct (a_caps _ HA) as (_ & _ & Hc & _). rewrite Hc in H. discriminate.
 Qed.
+
+(* ------------------------------------------------------------------------------------------ *)
+(* Without any hypothesis on serial reuse: a call is at AT MOST one place (a reused serial loses  *)
+(* a call, it never duplicates one)                                                              *)
+(* ------------------------------------------------------------------------------------------ *)
+Definition locLe (s : st) (tr : list obs) : Prop :=
+  forall i, (cnt i (pending_ids s) + cnt i (returned tr) <= if Nat.ltb i (ncalls s) then 1 else 0)%nat.
+
+Lemma cnt_del_le : forall i k l, (cnt i (ids (del k l)) <= cnt i (ids l))%nat.
+Proof.
+  intros i k l; induction l as [|[a d] t IH]; simpl; [lia|].
+  destruct (negb (a =? k)); simpl; lia.
+Qed.
+
+Lemma locLe_step : forall s tr c s' o, invA s -> locLe s tr -> step s c = Some (s', o) -> locLe s' (tr ++ o).
+Proof.
+  intros s tr c s' o HA HC H i. specialize (HC i).
+  assert (Hnc := step_no_crash _ _ _ _ HA H).
+  destruct c; step_inv H; try solve [exfalso; apply Hnc; simpl; tauto];
+    rewrite ?N.eqb_refl in *; cbn [negb] in *; rewrite ?lookup_put_same in *;
+    repeat match goal with H : Some _ = Some _ |- _ => injection H as H; try subst end;
+    cnt_norm; rw_proj s; cnt_norm;
+    try match goal with
+        | H : lookup ?k (rec s) = Some ?c |- _ => rewrite (cnt_del i k c (rec s) (a_keys _ HA) H) in HC
+        end;
+    repeat match goal with
+           | |- context [cnt i (ids (del ?k (del ?k' ?l)))] =>
+               lazymatch goal with
+               | _ : (cnt i (ids (del k (del k' l))) <= _)%nat |- _ => fail
+               | _ => pose proof (cnt_del_le i k (del k' l))
+               end
+           | |- context [cnt i (ids (del ?k ?l))] =>
+               lazymatch goal with
+               | _ : (cnt i (ids (del k l)) <= _)%nat |- _ => fail
+               | _ => pose proof (cnt_del_le i k l)
+               end
+           end;
+    try solve [cnt_fin]; try congruence.
+  all: rewrite lookup_put_same in E3; injection E3 as <-;
+    pose proof (cnt_del_le i (seq s) (rec s)); cnt_fin.
+Qed.
